@@ -24,6 +24,20 @@ CHECKS = {
         technique="Lean 4 proof over transcribed scanner model + regenerated keyword table + exhaustive differential correspondence",
         ref="§5 C13",
     ),
+    "C14": dict(
+        text=("Proof (Lean 4) over an L1 model of ddptypes (GetUnderlying/Equal/TrueUnderlying/DeepEqual/Is*) and of the checker's three "
+              "positions (VisitVarDecl, VisitAssignStmt, VisitCastExpr): Equal is an equivalence; aliases are transparent at any depth, "
+              "behind further aliases and inside lists (congruence); a definition is equivalent to nothing but (aliases of) itself, never to "
+              "its base or to another definition; initialisation = assignment; both accept exactly equivalent types, numeric-for-numeric and "
+              "anything-but-nothing for Variable; a definition converts only explicitly and only to/from its base — for all type terms of "
+              "any depth. Tie: every exported predicate compared with the model on all ordered pairs of the closure to depth 2 (quick, plus "
+              "random depth-3 pairs) / depth 3 (thorough); equivalence laws monitored directly on the implementation's Equal matrix; the "
+              "three positions compared through parser.Parse on generated programs for every ordered pair of expressible types. "
+              "Not modelled: generic types (C15), operator overloads of `als`."),
+        note=TB + "Pointer identity of *TypeDef/*StructType modelled by identity numbers (the harness keeps them consistent).",
+        technique="Lean 4 proof by structural induction on type terms + exhaustive pairwise correspondence",
+        ref="§5 C14",
+    ),
     "C20": dict(
         text=("Proof (Lean 4) over L1 models of ordered_map.go (binary search with eq-hit/less-direction, linear insert), alias_trie/trie.go "
               "(Insert/Contains/Search) and tokenEqual/tokenLess: under the contract Compat(eq,less) the sorted-slice map refines an "
